@@ -437,6 +437,25 @@ def reflection_bounded(run):
         '(typing.get_origin/get_args, inspect.signature)'))
 
 
+def splitoff_bounded(run):
+    try:
+        rc, out, err = run_native([os.path.join(
+            VERIF, 'checks', 'splitoff_native.py')], run.repo, timeout=300)
+        r = json.loads(out)
+    except Exception as ex:      # noqa
+        run.broken.append('split_off stand-in failed to run: %r' % (ex,))
+        return
+    run.bounded.append(Bounded(
+        'split-off-extra-attributes', 'every mapping over 6 key names with up '
+        'to 4 entries x every known_attrs subset of {self, a, b, '
+        '_yatiml_extra}; all __init__ signatures with up to 3 parameters for '
+        'the argspec / class_subobjects link',
+        r['evaluations'], r['failures'],
+        'the real Constructor.__split_off_extra_attributes against a dict-'
+        'comprehension oracle (and that it leaves its argument unchanged); '
+        'inspect.getfullargspec names/annotations against class_subobjects'))
+
+
 def defaults_bounded(run):
     try:
         rc, out, err = run_native([os.path.join(
